@@ -370,6 +370,65 @@ def lay310(ctx: Ctx) -> None:
     ctx.R.expect_min("LAY-310", 2 * (10 + 3 + 6))
 
 
+def blk2(ctx: Ctx) -> None:
+    """BLK-2 the sanity bound on f_iblock admits a full block stack.  f_iblock counts the entries in use, so its range is
+    0..CO_MAXBLOCKS *inclusive* (FACTS headers: CO_MAXBLOCKS = 20 on 3.9 and 3.10; 20 nested with / try / loops-with-try is legal
+    Python).  Every assert of the 3.9 / 3.10 reader whose test reads the block count is evaluated (engine MINI) for 0 and for
+    CO_MAXBLOCKS: an assert that rejects either makes every such frame fail inspection (-> referents fallback, contexts less exact)"""
+    from types import SimpleNamespace
+    from ..minieval import Mini, Raised, Unsupported
+    mod = ctx.P.mod("_lowlevel_cpython_310")
+    caps = {v: ctx.F["headers"][v]["CO_MAXBLOCKS"] for v in ("3.9", "3.10") if v in ctx.F.get("headers", {})}
+    if not caps:
+        raise AnalysisError("BLK-2: no CO_MAXBLOCKS in the header facts")
+    consts = {}
+    for a_ in mod.tree.body:
+        if isinstance(a_, (ast.Assign, ast.AnnAssign)) and isinstance(getattr(a_, "value", None), ast.Constant) and isinstance(a_.value.value, int):
+            t_ = a_.targets[0] if isinstance(a_, ast.Assign) else a_.target
+            if isinstance(t_, ast.Name):
+                consts[t_.id] = a_.value.value
+    n = 0
+    for q, fn in mod.defs.items():
+        if not isinstance(fn, (ast.FunctionDef, ast.AsyncFunctionDef)):
+            continue
+        # names that hold the count: f_iblock (a ctypes int: .value) and locals assigned from f_iblock.value
+        holders = {a_.targets[0].id for a_ in walk_scope(fn) if isinstance(a_, ast.Assign) and len(a_.targets) == 1 and isinstance(a_.targets[0], ast.Name) and norm(a_.value) == "f_iblock.value"}
+        for st in walk_scope(fn):
+            if not isinstance(st, ast.Assert):
+                continue
+            reads = {x.id for x in ast.walk(st.test) if isinstance(x, ast.Name)}
+            if not ("f_iblock" in reads or holders & reads):
+                continue
+            if any(isinstance(c_, ast.Call) for c_ in ast.walk(st.test)):
+                continue      # relates the count to something else (sizes, offsets): not the range check
+            for v, cap in sorted(caps.items()):
+                for k in (0, cap):
+                    env = dict(consts)
+                    env["f_iblock"] = SimpleNamespace(value=k)
+                    for h_ in holders:
+                        env[h_] = k
+                    try:
+                        ok_ = Mini(env, {}, {}).truth(Mini(env, {}, {}).expr(st.test))
+                    except (Unsupported, Raised) as ex:
+                        ctx.R.undecided("BLK-2", f"{q}: `{norm(st.test)[:60]}` is outside the evaluator's fragment: {ex}")
+                        break
+                    except Exception as ex:
+                        ctx.R.undecided("BLK-2", f"{q}: `{norm(st.test)[:60]}`: {type(ex).__name__}")
+                        break
+                    n += 1
+                    if not ok_:
+                        ctx.R.fail("BLK-2", mod, st, f"CPython {v}: `assert {norm(st.test)[:60]}` rejects a block count of {k}" + (f" = CO_MAXBLOCKS: a frame whose block stack is full ({cap} nested with / try blocks) "
+                                   "fails inspection although it is well-formed; its contexts come from the referents fallback" if k == cap else ": every frame outside any block fails inspection"),
+                                   construct=f"{q}: block-count bound rejects {k}")
+                        break
+                    ctx.R.ok("BLK-2", f"{v} {q}: `{norm(st.test)[:50]}` admits {k}")
+                else:
+                    continue
+                break
+    if n == 0:
+        ctx.R.undecided("BLK-2", "no assert of the 3.9 / 3.10 reader bounds the block count (f_iblock)")
+
+
 def blk1(ctx: Ctx) -> None:
     """BLK-1 the sanity bounds that inspect_frame (3.9 / 3.10 block stack) asserts on each block admit what each interpreter
     really stores: FACTS (except_handler_block, read from a live frame of each interpreter) say that the b_handler of an
@@ -441,4 +500,4 @@ def blk1(ctx: Ctx) -> None:
                        "handler vanish, the exiting entry loses varname / start_line)", construct=f"{v}: EXCEPT_HANDLER b_handler {h} rejected")
 
 
-RULES = [lay311, lay310, blk1]
+RULES = [lay311, lay310, blk1, blk2]
